@@ -14,6 +14,14 @@ thread_local! {
     /// fault injection: the n-th `Key::clone` / `Key::cmp` from now on panics (0 = disarmed)
     pub static CLONE_FUSE: Cell<u64> = const { Cell::new(0) };
     pub static CMP_FUSE: Cell<u64> = const { Cell::new(0) };
+    pub static KDROP_FUSE: Cell<u64> = const { Cell::new(0) };
+    pub static VDROP_FUSE: Cell<u64> = const { Cell::new(0) };
+}
+pub fn arm_kdrop_fuse(n: u64) {
+    KDROP_FUSE.with(|c| c.set(n));
+}
+pub fn arm_vdrop_fuse(n: u64) {
+    VDROP_FUSE.with(|c| c.set(n));
 }
 
 pub fn arm_clone_fuse(n: u64) {
@@ -25,6 +33,8 @@ pub fn arm_cmp_fuse(n: u64) {
 pub fn disarm_fuses() {
     CLONE_FUSE.with(|c| c.set(0));
     CMP_FUSE.with(|c| c.set(0));
+    KDROP_FUSE.with(|c| c.set(0));
+    VDROP_FUSE.with(|c| c.set(0));
 }
 fn burn(fuse: &'static std::thread::LocalKey<Cell<u64>>, what: &str) {
     let fire = fuse.with(|c| {
@@ -78,6 +88,9 @@ impl Clone for Key {
 impl Drop for Key {
     fn drop(&mut self) {
         LIVE_KEYS.with(|c| c.set(c.get() - 1));
+        if !std::thread::panicking() {
+            burn(&KDROP_FUSE, "drop");
+        }
     }
 }
 impl PartialEq for Key {
@@ -119,5 +132,16 @@ impl Clone for Val {
 impl Drop for Val {
     fn drop(&mut self) {
         LIVE_VALS.with(|c| c.set(c.get() - 1));
+        if !std::thread::panicking() {
+            VDROP_FUSE.with(|c| {
+                let n = c.get();
+                if n > 0 {
+                    c.set(n - 1);
+                    if n == 1 {
+                        panic!("VERIF-FAULT: injected panic in Val::drop");
+                    }
+                }
+            });
+        }
     }
 }
